@@ -407,18 +407,19 @@ func c04Child(in json.RawMessage) (interface{}, error) {
 			res.GateReached = true
 			acquire(-2)
 			recheck("before-close-in-merge")
-			closed := make(chan error, 1)
-			go func() { closed <- w.Close() }()
+			closed := make(chan struct{})
+			var closeErr error
+			go func() { closeErr = w.Close(); close(closed) }()
 			time.Sleep(20 * time.Millisecond) // Close has signalled the background goroutines by now
 			closeHold.Release()
-			select {
-			case err := <-closed:
-				if err != nil {
-					add("close-error", err.Error())
-				}
-			case <-time.After(60 * time.Second):
-				add("close-does-not-return", "Writer.Close started while a merge was held at its beginning did not return within 60 s after the merge was let go")
+			// (no wall-clock verdict: reported only when Close and all the writer's goroutines are blocked at
+			// the same places in two dumps; a Close that is merely slow on a loaded machine is waited for)
+			if dl := awaitWorkload(closed, 60*time.Second, "blugelabs/bluge.(*Writer).Close("); dl != "" {
+				add("close-does-not-return", "Writer.Close started while a background step was held did not return after the step was let go: Close and the writer's goroutines are blocked, unchanged in two dumps three seconds apart:\n"+firstLines(dl, 60))
 				return res, nil
+			}
+			if closeErr != nil {
+				add("close-error", closeErr.Error())
 			}
 			if cs.Gate == "close-in-persist" {
 				res.Steps["close-while-persist-in-flight"]++
